@@ -182,6 +182,39 @@ class Run:
             raise MachineryError("TLC failed (rc=%d) on %s / %s:\n%s" % (r.returncode, mname, cfg, res.tail(60)))
         return res
 
+    def apalache(self, module, inv, *, cinit=None, length=0, timeout=300):
+        """Symbolic check (Apalache, SMT) of invariant `inv` of a typed module for all values of its
+        unbounded variables, up to `length` steps.  Returns (holds, output, counterexample text).  A
+        timeout or any outcome other than NoError / a counterexample raises MachineryError."""
+        module = module if os.path.isabs(module) else os.path.join(SPEC, module)
+        mname = os.path.splitext(os.path.basename(module))[0]
+        out = self.path("apalache", "%s-%s-%d" % (mname, inv, time.time_ns() % 10**9))
+        os.makedirs(out, exist_ok=True)
+        cmd = ["apalache-mc", "check", "--inv=" + inv, "--length=%d" % length, "--out-dir=" + out, "--run-dir=" + os.path.join(out, "run")]
+        if cinit:
+            cmd.append("--cinit=" + cinit)
+        cmd.append(module)
+        e = dict(os.environ)
+        e.pop("JAVA_TOOL_OPTIONS", None)
+        e["JVM_ARGS"] = "-Xmx4g -Djava.io.tmpdir=" + out
+        try:
+            r = subprocess.run(cmd, capture_output=True, text=True, timeout=timeout, env=e, cwd=out)
+        except subprocess.TimeoutExpired:
+            shutil.rmtree(out, ignore_errors=True)
+            raise MachineryError("Apalache timed out after %ds on %s / %s" % (timeout, mname, inv))
+        text = r.stdout + r.stderr
+        cex = ""
+        try:
+            if "The outcome is: NoError" in text and r.returncode == 0:
+                return True, text, cex
+            if "The outcome is: Error" in text and r.returncode == 12:
+                vf = os.path.join(out, "run", "violation1.tla")
+                cex = open(vf).read() if os.path.exists(vf) else ""
+                return False, text, cex
+            raise MachineryError("Apalache failed (rc=%d) on %s / %s:\n%s" % (r.returncode, mname, inv, text[-3000:]))
+        finally:
+            shutil.rmtree(out, ignore_errors=True)
+
     def tlc_shards(self, module, cfg, shard_envs, *, timeout=900, heap="3g", par=None, deque=False):
         """run one TLC (-workers 1) per environment in parallel; returns list of TlcResult"""
         par = par or min(NCPU, len(shard_envs))
